@@ -350,10 +350,11 @@ func Rapid[C any](u *Unit, checks int, regress []C, draw func(*rapid.T) C, check
 		u.Eval(1)
 		f := check(c)
 		if f != nil {
-			u.mu.Lock()
-			u.violations = append(u.violations, violation{Finding: *f, Case: caseJSON(c)})
-			u.mu.Unlock()
-			u.T.Logf("replay: still fails: [%s] %s", f.Classifier, f.What)
+			if u.Report(f, c) {
+				u.T.Logf("replay: still fails: [%s] %s", f.Classifier, f.What)
+			} else {
+				u.T.Logf("replay: reproduces the known finding [%s] %s", f.Classifier, f.What)
+			}
 		} else {
 			u.T.Logf("replay: case passes")
 		}
